@@ -473,3 +473,45 @@ contract(
     canaries=[("no_clamp", "gap_sizes = np.maximum(0, gap_sizes)", "gap_sizes = gap_sizes"),
               ("mask_le", "target_sizes + gap_sizes < insert_size", "target_sizes + gap_sizes <= insert_size - 2")],
 )
+
+
+# ----------------------------------------------------------------------------- deductive: matching reference bins to sample bins
+from .c_call import CHROM, GENE       # noqa: E402
+
+_SAMP = ObjT("CopyNumArray", data=TabT(index="any", chromosome=CHROM, start=Int, end=Int, gene=GENE, log2=Real, depth=Real),
+             meta=DictT(sample_id=Str))
+_REFT = ObjT("CopyNumArray", data=TabT(index="any", chromosome=CHROM, start=Int, end=Int, gene=GENE, log2=Real, depth=Real, spread=Real),
+             meta=DictT())
+_SAME = "(R.data.chromosome[j] == S.data.chromosome[k] and R.data.start[j] == S.data.start[k] and R.data.end[j] == S.data.end[k])"
+_SAMEKJ = _SAME.replace("R", "ref_cnarr").replace("S", "samp_cnarr")
+_DUP = "exists(0, len(T.data), lambda a: exists(0, len(T.data), lambda b: a < b and T.data.chromosome[a] == T.data.chromosome[b] and " \
+       "T.data.start[a] == T.data.start[b] and T.data.end[a] == T.data.end[b]))"
+
+contract(
+    "cnvlib/fix.py::match_ref_to_sample",
+    params=dict(ref_cnarr=_REFT, samp_cnarr=_SAMP),
+    returns=ObjT("CopyNumArray", data=TabT(index="any", chromosome=CHROM, start=Int, end=Int, gene=GENE, log2=NReal, depth=NReal,
+                                           spread=NReal), meta=DictT()),
+    requires=[],
+    # refused (ValueError) exactly when coordinates are duplicated in either table or a sample bin is absent from the reference
+    raises=dict(exc="ValueError", when=("DUPS or DUPR or exists(0, len(samp_cnarr.data), lambda k: not exists(0, len(ref_cnarr.data), lambda j: SAME))"
+                                        .replace("DUPS", _DUP.replace("T", "samp_cnarr")).replace("DUPR", _DUP.replace("T", "ref_cnarr"))
+                                        .replace("SAME", _SAMEKJ))),
+    ensures=[
+        ("one_reference_bin_per_sample_bin", "len(result.data) == len(samp_cnarr.data)"),
+        # matched by (chromosome, start, end), never by row position: row k carries the reference bin with sample bin k's coordinates
+        ("matched_by_coordinates", "forall(0, len(result.data), lambda k: let(lambda j: 0 <= j and j < len(ref_cnarr.data) and SAME and "
+                                   "result.data.chromosome[k] == ref_cnarr.data.chromosome[j] and "
+                                   "not isnull(result.data.log2[k]) and val(result.data.log2[k]) == ref_cnarr.data.log2[j] and "
+                                   "not isnull(result.data.spread[k]) and val(result.data.spread[k]) == ref_cnarr.data.spread[j] and "
+                                   "val(result.data.depth[k]) == ref_cnarr.data.depth[j] and result.data.gene[k] == ref_cnarr.data.gene[j], "
+                                   "match_pos(k)))".replace("SAME", _SAMEKJ)),
+    ],
+    props=("C04",), domain="skip",
+    canaries=[("one_missing_bin_tolerated", "if num_missing > 0:", "if num_missing > 1:"),
+              ("reference_duplicates_not_checked", '((samp_labeled, "sample"), (ref_labeled, "reference"))', '((samp_labeled, "sample"),)'),
+              ("matched_by_position", "ref_matched = ref_labeled.reindex(index=samp_labeled.index)",
+               "ref_matched = ref_labeled.reindex(index=ref_labeled.index)")],
+    notes="pandas label lookup (set_index on the coordinate tuples, Index.duplicated, reindex(index=labels)) is modelled: a "
+          "row of the result is the row whose label equals the requested one, all-missing where there is none",
+)
